@@ -81,10 +81,10 @@ Section Char.
     Hypothesis D : msg_dom items.
     Hypothesis R : reads_as h items.
 
-    Lemma rd_str lk : str_eqb k_source lk = false -> hstr h lk = item_str items lk.
+    Lemma rd_str lk : tracker_reads lk = true -> hstr h lk = item_str items lk.
     Proof. intros Hne. unfold hstr, item_str. now rewrite (R lk Hne). Qed.
 
-    Lemma truthy_plain lk : str_eqb k_source lk = false -> is_meta lk = false ->
+    Lemma truthy_plain lk : tracker_reads lk = true -> is_meta lk = false ->
       htruthy h lk = nonempty (item_str items lk).
     Proof.
       intros Hne Hm. unfold htruthy, nonempty, item_str. rewrite (R lk Hne).
